@@ -53,6 +53,13 @@ const (
 	// place: buffered commands are later written behind the truncated prefix, in
 	// the wrong position and uncounted
 	findingKeepsLogBuffer = "follower-truncate-keeps-aofbuf"
+	// findings of a code reader, repaired; the probes and fault kinds were added afterwards
+	findingUnprobedRegions = "follower-resync-trusts-unprobed-regions"
+	findingNoAOFKeepsData  = "follower-no-aof-keeps-old-data"
+	findingSwitchServes    = "follower-leader-switch-serves-partial"
+	// AOF <pos> is checked against one log file and streamed from another when an
+	// AOFSHRINK swap falls between cmdAOF and liveAOF
+	findingAOFPosSwap = "aof-pos-validated-before-shrink-swap"
 )
 
 func caseSeed(sub string, i int) int {
@@ -259,6 +266,15 @@ func padsCycling(key string, n, size, ids int) [][]string {
 	return out
 }
 
+// bigRecords is n x SET big rNNN STRING <size bytes>.
+func bigRecords(n, size int) [][]string {
+	out := make([][]string, n)
+	for i := range out {
+		out[i] = []string{"SET", "big", fmt.Sprintf("r%03d", i), "STRING", fmt.Sprintf("%s%d:%d", padPrefix, size, 100+i)}
+	}
+	return out
+}
+
 type probe struct {
 	name    string
 	finding string // id reported when the probe's case fails
@@ -360,6 +376,34 @@ func probes() []probe {
 			name: "restart-after-buffered-resync", finding: findingKeepsLogBuffer, status: "open",
 			what:   "follower (log 660 KB) in sync; leader RENAME k3 k4, which sits in the follower's log buffer; a pipelined SLEEP 1.6 / SLEEP 0.8 on the follower keeps the flusher and any client reply away; link cut; the follower reconnects, verifies one window, truncates its log to 510937 bytes and reloads it without emptying the buffer; the buffered RENAME is then written behind the prefix, before the rest of the log that is streamed again",
 			custom: logBufferHistory,
+		},
+		{
+			name: "equal-length-overwrite-between-shrinks", finding: findingUnprobedRegions, status: "regression",
+			what: "leader: 60 x SET big rNNN STRING <60000 B>, AOFSHRINK (3.6 MB log in id order); the follower has caught up; SET big r017 STRING <other 60000 B> (same encoded length), AOFSHRINK again: the two logs differ only inside one record at offset ~1.02 MB, which the window bisection (windows at 0, 3.1 MB, 1.57 MB, 2.35 MB) never compares; the follower kept its stale record and said caught up with an equal aof_size",
+			spec: caseSpec{Init: initEmpty, FirstSync: true,
+				Pre: [][]string{{"SET", "k1", "a", "POINT", "1", "1"}},
+				Steps: []step{{Kind: stRewriteShrink, Cmds: bigRecords(60, 60000),
+					LCmds: [][]string{{"SET", "big", "r017", "STRING", fmt.Sprintf("%s%d:%d", padPrefix, 60000, 999)}}}}},
+		},
+		{
+			name: "follower-without-aof-keeps-own-data", finding: findingNoAOFKeepsData, status: "regression",
+			what: "a follower started with --appendonly no holds old/x, then FOLLOWs an empty leader and is caught up; the leader writes k/a: the follower must hold exactly k/a",
+			spec: caseSpec{Init: initUnrelated, NoAOF: true, FirstSync: true,
+				Own:   [][]string{{"SET", "old", "x", "POINT", "1", "1"}},
+				Steps: []step{{Kind: stBurst, Sync: true, Cmds: [][]string{{"SET", "k", "a", "POINT", "2", "2"}}}}},
+		},
+		{
+			name: "switch-to-another-leader", finding: findingSwitchServes, status: "regression",
+			what: "the follower has caught up with leader A; FOLLOW points it at leader B (1.2 MB log, paced link): while HEALTHZ says it has not caught up, every read must be refused with 'catching up to leader'; afterwards it must be a copy of B",
+			spec: caseSpec{Init: initEmpty, FirstSync: true,
+				Pre: [][]string{{"SET", "k1", "a", "POINT", "1", "1"}, {"SET", "onlyA", "x", "POINT", "3", "3"}},
+				Steps: []step{{Kind: stSwitch, Chunk: 8192, GapMs: 3,
+					Cmds: append(padsCycling("pad", 40, 30000, 3), []string{"SET", "k1", "b", "POINT", "2", "2"})}}},
+		},
+		{
+			name: "shrink-between-aof-check-and-open", finding: findingAOFPosSwap, status: "open",
+			what: "leader (child process, log pipe kept full by the harness) holds a 2.1 MB log for a tiny dataset; the follower, in sync, reconnects and asks AOF <its size>; the leader validates the position and blocks in its 'live' log line; AOFSHRINK swaps in a log of a few hundred bytes; the pipe is drained; the leader then writes k/new and k/new2",
+			custom: aofPosSwapHistory,
 		},
 		{
 			name: "split-same-length", finding: "", status: "guard",
@@ -471,6 +515,7 @@ func TestC06_Faults(t *testing.T) {
 	o.noRenameWithHooks = o.noOwnHooks
 	o.noStarDigit = ev.KnownActive(findingCutInsideBulk)
 	o.noStaleSession = ev.KnownActive(findingStaleSession)
+	o.noShrinkInHandshake = ev.KnownActive(findingAOFPosSwap)
 	o.noBoundaryAt512K = ev.KnownActive(findingKeepsTail)
 	n := ev.Pick(128, 150)
 	full := caseGen(genOpts{maxSteps: o.maxSteps})
@@ -478,7 +523,7 @@ func TestC06_Faults(t *testing.T) {
 	var specs []caseSpec
 	for i := 0; i < n; i++ {
 		seed := caseSeed("faults", i)
-		if o.noResyncFromZero || o.noOwnHooks || o.noStarDigit || o.noStaleSession {
+		if o.noResyncFromZero || o.noOwnHooks || o.noStarDigit || o.noStaleSession || o.noShrinkInHandshake {
 			// what the unrestricted generator would have produced for this seed
 			u := full.Example(seed)
 			if o.noResyncFromZero && shapeResyncFromZero(&u) {
@@ -493,6 +538,9 @@ func TestC06_Faults(t *testing.T) {
 			if o.noStaleSession && shapeStaleSession(&u) {
 				c.Excluded(findingStaleSession)
 			}
+			if o.noShrinkInHandshake && shapeShrinkInHandshake(&u) {
+				c.Excluded(findingAOFPosSwap)
+			}
 		}
 		specs = append(specs, g.Example(seed))
 	}
@@ -504,6 +552,9 @@ func TestC06_Faults(t *testing.T) {
 	}
 	if o.noResyncFromZero {
 		c.Note("known finding %s active: generator restricted to cases in which a follower holding data never resumes at position 0 (logs >= 600 KiB before the first fault, first catch-up awaited, no unrelated initial state, no AOFSHRINK)", findingKeepsOldData)
+	}
+	if o.noShrinkInHandshake {
+		c.Note("known finding %s active: every AOFSHRINK is preceded by an oracle evaluation (no follower handshake in flight); the remaining chance hit (a spontaneous reconnect inside the microsecond window) would show as mismatch:caught-up-but-never-fed", findingAOFPosSwap)
 	}
 	if o.noStaleSession {
 		c.Note("known finding %s active: every step that re-issues FOLLOW is preceded by an oracle evaluation (steady follower), no tail refollow", findingStaleSession)
